@@ -212,6 +212,8 @@ package graphsync
 //@ func (*graphsync.dtChannel).cleanup {C16,C09,C20}
 //@   acquires {C20} dtChannel.lk, dtChannel.optionsLk, requestIDToChannelIDMap.lk
 //@   ensures [forget] last(requestIDToChannelIDMap.deleteRefs, $0 == c.t.requestIDToChannelID && $1 == c.channelID) && calls(requestIDToChannelIDMap.deleteRefs) == 1
+//@   ensures [serialized-with-hooks] {C16,C09} all(requestIDToChannelIDMap.deleteRefs, held(c.lk))
+//@       -- the request map is purged under the channel's lock: a request hook holds that lock from tracking the channel to mapping its request, so cleanup cannot slip between the two and leave a mapping behind
 //@   ensures [store-lifetime] calls(GraphExchange.UnregisterPersistenceOption) == (ret(dtChannel.hasStore, 0) ? 1 : 0) &&
 //@       all(GraphExchange.UnregisterPersistenceOption, $1 == "data-transfer-" + c.channelID.String())
 //@ func (*graphsync.dtChannel).hasStore {C16,C20,C09}
